@@ -1115,6 +1115,29 @@ impl<'a> Compiler<'a> {
     pub fn verif_bytecode(&self) -> &[u8] {
         &self.program.bytecode
     }
+    /// stage 1's `add_function` for a function `name` in module `namespace`: false = rejected
+    pub fn verif_add_function_ir(
+        &mut self,
+        namespace: &[&str],
+        name: &str,
+        handle: Handle,
+        arity: usize,
+    ) -> bool {
+        let mut ns = NameSpace::default();
+        for n in namespace {
+            ns.push(n.to_string().into_boxed_str());
+        }
+        let ir = FunctionIr {
+            function_index: 0,
+            name: name.to_string().into_boxed_str(),
+            arguments: vec![String::from("x"); arity].into_boxed_slice(),
+            cards: Vec::new().into_boxed_slice(),
+            namespace: ns,
+            imports: Default::default(),
+            handle,
+        };
+        self.add_function(&ir).is_ok()
+    }
     /// register a function under its full dotted name, like stage 1 does
     pub fn verif_add_function(&mut self, full_name: &str, handle: Handle, arity: u32) -> bool {
         self.jump_table
